@@ -288,6 +288,7 @@ def run_align(case):
     db = os.path.join(d, "c13.yml")
     meta_ = gen_db.write(case["db"], db)
     out = {}
+    GRangeOf = {}
     labels = ["alignment"]
     names = None
     for build in ("hg19", "hg38"):
@@ -314,6 +315,7 @@ def run_align(case):
         sim.sample(bam, simc, rl, step)
         sim.sample(pbam, [("1", frozenset())] * 2, rl, step)
         labels.append(f"strand:{gene.strand:+d}")
+        GRangeOf[build] = sim.cnr
         try:
             res = genotype(db, bam, pbam, output_file=None, cn_region=sim.cnr, genome=build, solver="cbc")
             sols = [s for v in res.values() for s in v]
@@ -329,6 +331,38 @@ def run_align(case):
     want = tuple(sorted(collections.Counter(c for c, _, maj, _ in copies if maj is not None).items()))
     if any(isinstance(x, str) or any(s[2] != want for s in x) for x in (a, b)):
         return Result([], labels + ["planted-structure-not-called"], False)
+    if a != b and not isinstance(a, str) and not isinstance(b, str) and [x[:3] for x in a] != [x[:3] for x in b]:
+        # recorded finding KF-MNPKEY: the phase record files a multi-nucleotide substitution under its LEFTMOST GENOME base; a read
+        # that covers only part of the substitution's footprint says "reference here" for it only if that one base is the covered
+        # one - which is the other RefSeq base on the opposite strand.  Mirror-image reads therefore link (or fail to link) the
+        # substitution to a neighbouring site differently in the two builds, and one build resolves a cis/trans ambiguity the other
+        # reports as two tied solutions.  Attributed by counter-factual: without the reads that cover a catalogued multi-nucleotide
+        # substitution only partly, both builds must give the same solutions
+        import pysam
+
+        out2 = {}
+        for build in ("hg19", "hg38"):
+            gene = Gene(db, genome=build)
+            mnps = [(p_, p_ + len(o_.split(">")[0])) for p_, o_ in gene.mutations if ">" in o_ and len(o_.split(">")[0]) > 1]
+            if not mnps:
+                out2 = None
+                break
+            src, dst = os.path.join(d, f"s{build}.bam"), os.path.join(d, f"f{build}.bam")
+            with pysam.AlignmentFile(src) as fi, pysam.AlignmentFile(dst, "wb", header=fi.header) as fo:
+                for r_ in fi:
+                    s_, e_ = r_.reference_start, r_.reference_end
+                    if any(s_ < hi_ and lo_ < e_ and not (s_ <= lo_ and hi_ <= e_) for lo_, hi_ in mnps):
+                        continue
+                    fo.write(r_)
+            pysam.index(dst)
+            try:
+                res2 = genotype(db, dst, os.path.join(d, f"p{build}.bam"), output_file=None, cn_region=GRangeOf[build], genome=build, solver="cbc")
+                out2[build] = sorted((s.get_major_diplotype(), tuple(sorted((x.major, x.minor) for x in s.solution))) for v in res2.values() for s in v)
+            except AldyException as e:
+                out2[build] = "error:" + str(e)[:60]
+        if out2 and out2["hg19"] == out2["hg38"] and not isinstance(out2["hg19"], str):
+            return Result([V("KF-MNPKEY:partly-covered-multi-nucleotide-substitution-links-differently-on-the-two-strands",
+                             hg19=str([x[:1] for x in a])[:200], hg38=str([x[:1] for x in b])[:200], planted=names)], labels + ["kf-mnpkey"], True)
     if a != b:
         if isinstance(a, str) or isinstance(b, str) or [x[:3] for x in a] != [x[:3] for x in b]:
             redistribution = not isinstance(a, str) and not isinstance(b, str) and [(x[0], x[2], x[4]) for x in a] == [(x[0], x[2], x[4]) for x in b]
